@@ -27,7 +27,25 @@ Clause ids (`what`):
 Two input families get clause ids of their own (prefix), so that a finding there cannot mask a regression elsewhere:
   tiny_gap_<clause>       lists with two changes no more than 0.001 measure apart (suspected defect F13:
                           ValueError('Failed to yield positive Snap'), e.g. tiny_gap_no_exception)
-  near_beat_gap_<clause>  lists with a gap that exceeds a whole number (>= 1) of beats by at most 0.001 beat
+  near_beat_gap_<clause>  lists with a gap that exceeds a whole number (>= 1) of beats - NOT a whole number of measures -
+                          by at most 0.001 beat (finding N7).  A gap of whole MEASURES + a hair is the documented
+                          'extend' case, holds on the unchanged tree and carries plain clause ids.
+  coincident_<clause>     lists in which two (or more) changes sit on exactly the same position (and no other pair is
+                          closer than 0.001 measure): which of them "is active" for zero time is not stated, so only
+                          what the statement fixes is compared (the later-listed one governs what follows)
+  other_metronome_<clause>  lists with a metronome (beats per measure) other than 4: with 3, 5, 6, 7 ... beats
+                          measure_length / beat_length is not exact in floats (finding reported with this round:
+                          [130 bpm @ measure 0, 120 bpm @ measure 1] in 3/4 raises ZeroDivisionError; with 8 / 16 beats the
+                          same happens one step later, after the 'extend' branch has made a 13-beat measure: 1 list in 12 000)
+  `reseat_seated_no_exception` (reseating the seated RESULT raises: finding N6) keeps its plain id in the last two families.
+
+Input dimensions of a case (all optional in the JSON `case`, defaults = the original enumeration):
+  metro / metros   beats per measure, one for the list or one per change (a change of metronome only on a measure line)
+  num              how the numbers are handed over: fraction (default) | float | int | numpy | unnormalised
+                   (Snap(0, position, m): the beat exceeds the measure and is normalised by Snap itself)
+  via              class (default) | instance | defaults (reseat left to its default, keyword arguments)
+  order            the list is handed over in this order (the functions sort by position themselves)
+  forms            which entry points: list, from_snap, tm_reseat, tm_reseat_offsets (the map built from ms offsets)
 """
 from __future__ import annotations
 
@@ -94,9 +112,10 @@ def _close(a, b):
     return abs(a - b) <= TOL_MS
 
 
-def _check_points(prefix, changes, t, T, bpms, failed):
+def _check_points(prefix, changes, t, T, bpms, failed, metros=None):
     """Clauses that only need the times T_j and bpms c_j of the returned points (t: original times)."""
     n = len(changes)
+    metros = metros or [METRO] * n
     match = []
     for i in range(n):
         js = [j for j in range(len(T)) if _close(T[j], t[i])]
@@ -109,7 +128,7 @@ def _check_points(prefix, changes, t, T, bpms, failed):
             continue
         whole = True
         if i + 1 < n:
-            k = (changes[i + 1][0] - changes[i][0]) / METRO
+            k = (changes[i + 1][0] - changes[i][0]) / metros[i]
             whole = k.denominator == 1 and k >= 1
         if whole:
             # the bpm active from t_i on (the last returned point sitting at t_i)
@@ -137,38 +156,103 @@ def _points_of(bcs_s):
 # ----------------------------------------------------------------------------- one case
 
 
+def _metros(case, n):
+    if case.get("metros"):
+        return [int(m) for m in case["metros"]]
+    return [int(case.get("metro", METRO))] * n
+
+
+def _snaps_of(changes, metros):
+    """(measure, beat) of every change: the measures after change i have metros[i] beats."""
+    out = [(0, Fraction(0))]
+    for i in range(1, len(changes)):
+        m0, b0 = out[-1]
+        tot = b0 + (changes[i][0] - changes[i - 1][0])
+        out.append((m0 + int(tot // metros[i - 1]), tot % metros[i - 1]))
+    return out
+
+
 def _build(case):
+    """-> (changes [(position in beats, bpm)], metros, list handed to reamber).  With num=float the position the
+    oracle uses is the one denoted by the floats actually handed over."""
+    import numpy as np
     from reamber.algorithms.timing.utils.BpmChangeSnap import BpmChangeSnap
     from reamber.algorithms.timing.utils.snap import Snap
 
     changes = [(Fraction(p), Fraction(b)) for p, b in case["changes"]]
-    lst = [BpmChangeSnap(float(b), METRO, Snap(int(p // METRO), p % METRO, METRO)) for p, b in changes]
+    metros = _metros(case, len(changes))
+    num = case.get("num", "fraction")
+    snaps = _snaps_of(changes, metros)
+    lst = []
+    for (p, b), me, (m, beat) in zip(changes, metros, snaps):
+        if num == "float":
+            lst.append(BpmChangeSnap(float(b), me, Snap(int(m), float(beat), me)))
+        elif num == "numpy":
+            lst.append(BpmChangeSnap(np.float64(float(b)), me, Snap(int(m), np.float64(float(beat)), me)))
+        elif num == "int":
+            bb = int(b) if b.denominator == 1 else float(b)
+            be = int(beat) if beat.denominator == 1 else beat
+            lst.append(BpmChangeSnap(bb, me, Snap(int(m), be, me)))
+        elif num == "unnormalised" and len(set(metros)) == 1:
+            # the whole distance from the previous measure line of the list's own metronome, as beats of measure 0
+            lst.append(BpmChangeSnap(float(b), me, Snap(0, Fraction(m) * me + beat, me)))
+        else:
+            lst.append(BpmChangeSnap(float(b), me, Snap(int(m), beat, me)))
+    if num in ("float", "numpy"):
+        # what was handed over denotes these positions (float(beat) need not equal beat)
+        pos, prev = [Fraction(0)], (0, Fraction(0))
+        for i in range(1, len(changes)):
+            m, beat = snaps[i]
+            fb = Fraction(float(beat))
+            pos.append(pos[-1] + (m - prev[0]) * metros[i - 1] + (fb - prev[1]))
+            prev = (m, fb)
+        changes = [(q, b) for q, (_, b) in zip(pos, changes)]
     order = case.get("order")
     if order:
         lst = [lst[i] for i in order]
-    return changes, lst
+    return changes, metros, lst
 
 
-def _has_tiny_gap(changes):
-    return any((p1 - p0) / METRO <= TINY for (p0, _), (p1, _) in zip(changes[:-1], changes[1:]))
+def _gaps(changes, metros=None):
+    metros = metros or [METRO] * len(changes)
+    return [(p1 - p0, me) for (p0, _), (p1, _), me in zip(changes[:-1], changes[1:], metros)]
 
 
-def _has_near_beat_gap(changes):
-    """some gap exceeds a whole number (>= 1) of beats by at most 0.001 beat"""
-    for (p0, _), (p1, _) in zip(changes[:-1], changes[1:]):
-        g = p1 - p0
-        fr = g - (g.numerator // g.denominator)
-        if g >= 1 and 0 < fr <= TINY:
+def _has_tiny_gap(changes, metros=None):
+    return any(g / me <= TINY for g, me in _gaps(changes, metros))
+
+
+def _has_coincident_only(changes, metros=None):
+    """some changes share a position, and no OTHER pair is closer than 0.001 measure"""
+    gs = _gaps(changes, metros)
+    return any(g == 0 for g, _ in gs) and not any(0 < g / me <= TINY for g, me in gs)
+
+
+def _has_near_beat_gap(changes, metros=None):
+    """some gap exceeds a whole number (>= 1) of beats, which is not a whole number of measures, by at most 0.001 beat
+    (a whole number of measures + a hair is the documented 'extend' case and belongs to no family)"""
+    for g, me in _gaps(changes, metros):
+        whole = g.numerator // g.denominator
+        fr = g - whole
+        if g >= 1 and 0 < fr <= TINY and whole % me != 0:
             return True
     return False
 
 
-def _family(changes):
+def _other_metronome(metros):
+    return any(me != METRO for me in metros)
+
+
+def _family(changes, metros=None):
     """Input families that get clause ids of their own (so that a finding there cannot hide a regression elsewhere)."""
-    if _has_tiny_gap(changes):
+    if _has_coincident_only(changes, metros):
+        return "coincident_"
+    if _has_tiny_gap(changes, metros):
         return "tiny_gap_"
-    if _has_near_beat_gap(changes):
+    if _has_near_beat_gap(changes, metros):
         return "near_beat_gap_"
+    if metros and _other_metronome(metros):
+        return "other_metronome_"
     return ""
 
 
@@ -186,18 +270,41 @@ def _run_case(case):
 
 def _run_case_inner(case, TimingMap):
     failed = []
-    changes, lst = _build(case)
+    changes, metros, lst = _build(case)
     t = _orig_times(changes)
     exc_clause = "no_exception"
     forms = case.get("forms", ["list", "from_snap", "tm_reseat"])
     init = case.get("init", 0.0)
-    seated_input = all((p / METRO).denominator == 1 for p, _ in changes)
+    if case.get("init_np"):
+        import numpy as np
+
+        init = np.float64(init)
+    seated_input = all(b == 0 for _, b in _snaps_of(changes, metros))
+    coincident = any(_close(a, b) for a, b in zip(t[:-1], t[1:]))
+    # how the entry points are reached: through the class (default), through an instance, or with defaulted / keyword arguments
+    via = case.get("via", "class")
+    if via == "instance":
+        from reamber.algorithms.timing.utils.BpmChangeOffset import BpmChangeOffset
+
+        holder = TimingMap(bpm_changes_offset=[BpmChangeOffset(143.0, 4, 77.0)])
+        reseat_list = holder.reseat_bpm_changes_snap
+        from_snap = lambda o, l, reseat: holder.from_bpm_changes_snap(o, l, reseat=reseat)  # noqa: E731
+    elif via == "defaults":
+        reseat_list = lambda l: TimingMap.reseat_bpm_changes_snap(bpm_changes_snap=l)  # noqa: E731
+
+        def from_snap(o, l, reseat):
+            if reseat:  # reseat=True is the documented default
+                return TimingMap.from_bpm_changes_snap(bpm_changes_snap=l, initial_offset=o)
+            return TimingMap.from_bpm_changes_snap(o, l, False)
+    else:
+        reseat_list = TimingMap.reseat_bpm_changes_snap
+        from_snap = lambda o, l, reseat: TimingMap.from_bpm_changes_snap(o, l, reseat=reseat)  # noqa: E731
 
     # ---- form 1: TimingMap.reseat_bpm_changes_snap(list)
     out = None
     if "list" in forms:
         try:
-            out = TimingMap.reseat_bpm_changes_snap(lst)
+            out = reseat_list(lst)
         except Exception as ex:  # noqa
             failed.append((exc_clause, f"reseat_bpm_changes_snap raised {type(ex).__name__}: {ex}"))
     if out is not None:
@@ -212,12 +319,13 @@ def _run_case_inner(case, TimingMap):
             failed.append(("elapsed_time_unchanged", f"returned point with bpm 0: {pts}"))
         if T is not None:
             bpms = [p[3] for p in pts]
-            match = _check_points("", changes, t, T, bpms, failed)
+            match = _check_points("", changes, t, T, bpms, failed, metros)
             if all(m is not None for m in match):
                 for i in range(len(changes) - 1):
                     # the returned segments between the two matched points add up to the original elapsed time
                     el = T[match[i + 1]] - T[match[i]]
-                    if not _close(el, t[i + 1] - t[i]) or match[i + 1] <= match[i]:
+                    # (two changes on one position are matched by the same / by neighbouring points)
+                    if not _close(el, t[i + 1] - t[i]) or (match[i + 1] <= match[i] and not _close(t[i + 1], t[i])):
                         failed.append(("elapsed_time_unchanged", f"interval {i}: returned {float(el)} ms, original {float(t[i + 1] - t[i])} ms"))
             else:
                 if not _close(T[-1] - T[0], t[-1] - t[0]):
@@ -230,7 +338,7 @@ def _run_case_inner(case, TimingMap):
                     failed.append(("reseat_seated_timeline_unchanged", f"seated input timeline {[(float(a), b) for a, b in tl_in]} became {[(float(a), b) for a, b in tl_out]}"))
             if not bad:
                 try:
-                    out2 = TimingMap.reseat_bpm_changes_snap(out)
+                    out2 = reseat_list(out)
                     pts2 = _points_of(out2)
                     tl2 = _timeline(_out_times(pts2), [p[3] for p in pts2])
                     if not _same_timeline(tl_out, tl2):
@@ -249,14 +357,16 @@ def _run_case_inner(case, TimingMap):
         for j in range(len(bco) - 1):
             ml = _F(bco[j].metronome) * 60000 / _F(bco[j].bpm)
             k = (T[j + 1] - T[j]) / ml
+            if coincident and abs(k) * ml <= TOL_MS:
+                continue  # two points on one measure line (two original changes share that position)
             if abs(k - round(k)) * ml > TOL_MS or round(k) < 1:
                 failed.append((prefix + "on_measure_line", f"point {j + 1} at {float(T[j + 1])} ms is {float(k)} measures after point {j}"))
-        _check_points(prefix, changes, t, T, bpms, failed)
+        _check_points(prefix, changes, t, T, bpms, failed, metros)
         return _timeline(T, bpms)
 
     if "from_snap" in forms:
         try:
-            tm = TimingMap.from_bpm_changes_snap(init, lst, reseat=True)
+            tm = from_snap(init, lst, True)
         except Exception as ex:  # noqa
             tm = None
             failed.append((exc_clause, f"from_bpm_changes_snap(reseat=True) raised {type(ex).__name__}: {ex}"))
@@ -273,18 +383,32 @@ def _run_case_inner(case, TimingMap):
                 failed.append(("tm_reseat_seated_timeline_unchanged", f"seated map {[(float(a), b) for a, b in tl]} reseated to {[(float(a), b) for a, b in tl2]}"))
     if "tm_reseat" in forms:
         try:
-            tm0 = TimingMap.from_bpm_changes_snap(init, lst, reseat=False)
+            tm0 = from_snap(init, lst, False)
             tm1 = tm0.reseat()
         except Exception as ex:  # noqa
             tm1 = None
             failed.append((exc_clause, f"TimingMap.reseat() raised {type(ex).__name__}: {ex}"))
         if tm1 is not None:
             tm_clauses("tm_", tm1)
+    if "tm_reseat_offsets" in forms:
+        # the map is made from the ms positions of the changes (exact integration, rounded to floats), not from snaps
+        from reamber.algorithms.timing.utils.BpmChangeOffset import BpmChangeOffset
+
+        try:
+            bco_in = [BpmChangeOffset(float(b), me, float(_F(init) + ti)) for (_, b), me, ti in zip(changes, metros, t)]
+            tm0 = TimingMap.from_bpm_changes_offset(bco_in) if via != "instance" else TimingMap(bpm_changes_offset=bco_in)
+            tm1 = tm0.reseat()
+        except Exception as ex:  # noqa
+            tm1 = None
+            failed.append((exc_clause, f"TimingMap.reseat() of a map made from offsets raised {type(ex).__name__}: {ex}"))
+        if tm1 is not None:
+            tm_clauses("tm_", tm1)
     # one entry per clause is enough; clause ids carry the input family
-    fam = _family(changes)
+    fam = _family(changes, metros)
     seen, uniq = set(), []
     for w, d in failed:
-        w = fam + w
+        # (a seated RESULT that raises when reseated is one finding, N6, whatever the metronome / with coincident changes: no prefix there)
+        w = w if (fam in ("other_metronome_", "coincident_") and w == "reseat_seated_no_exception") else fam + w
         if w not in seen:
             seen.add(w)
             uniq.append((w, d))
@@ -295,18 +419,22 @@ def bco_repr(tm):
     return [(b.bpm, b.metronome, b.offset) for b in tm.bpm_changes_offset]
 
 
-def _case(changes, init=0.0, forms=None, order=None):
+def _case(changes, init=0.0, forms=None, order=None, **more):
     c = dict(changes=[[str(p), str(b)] for p, b in changes], init=init)
     if forms:
         c["forms"] = forms
     if order:
         c["order"] = order
+    for k, v in more.items():
+        if v is not None:
+            c[k] = v
     return c
 
 
-def _nontrivial(changes):
+def _nontrivial(changes, metros=None):
     """non-trivial: at least one change is off a measure line, i.e. something has to be reseated."""
-    return any((p / METRO).denominator != 1 for p, _ in changes)
+    metros = metros or [METRO] * len(changes)
+    return any(b != 0 for _, b in _snaps_of(changes, metros))
 
 
 # ----------------------------------------------------------------------------- enumerations
@@ -326,12 +454,14 @@ def _grid_lists(n):
 
 def _drive(rep, gen, tq, tt):
     done = True
-    for changes, init, forms, order in gen:
+    for item in gen:
+        changes, init, forms, order = item[:4]
+        more = item[4] if len(item) > 4 else {}
         if rep.out_of_time(tq, tt):
             done = False
             break
-        case = _case(changes, init, forms, order)
-        rep.case(case, nontrivial=_nontrivial(changes))
+        case = _case(changes, init, forms, order, **more)
+        rep.case(case, nontrivial=_nontrivial(changes, _metros(case, len(changes))))
         for what, d in _run_case(case):
             rep.fail(what, case, d)
             cnt = rep.extra.setdefault("failing_cases_by_clause", {})
@@ -405,7 +535,7 @@ def _random_list(rng, den, tiny=False):
 def reseat_random_fine_grids(rep):
     rng = rep.rng
     N = rep.n(6000, 60000)
-    rep.bound = f"{N} seeded lists of 2..5 changes, gaps up to 8 beats on the 1/48, 1/96 and 1/1000 beat grids (a quarter of the gaps whole measures), bpm from {POOL}, metronome 4, initial offset from {INITS}, list given in shuffled order; TimingMap.reseat() only on the 1/48 and 1/96 grids (its Snapper cannot represent 1/1000); 1/1000 lists with a pair closer than 0.001 measure or a gap of k + 1/1000 beats are left to reseat_tiny_gaps / reseat_near_beat_gaps"
+    rep.bound = f"{N} seeded lists of 2..5 changes, gaps up to 8 beats on the 1/48, 1/96 and 1/1000 beat grids (a quarter of the gaps whole measures), bpm from {POOL}, metronome 4, initial offset from {INITS}, list given in shuffled order; TimingMap.reseat() only on the 1/48 and 1/96 grids (its Snapper cannot represent 1/1000); 1/1000 lists with a pair closer than 0.001 measure or a gap of k + 1/1000 beats (k not a whole number of measures) are left to reseat_tiny_gaps / reseat_near_beat_gaps; whole measures + 1/1000 beat stay here"
     rep.rule = "a case is one tempo list + initial offset; non-trivial when some change is off a measure line"
 
     def gen():
@@ -445,7 +575,7 @@ def reseat_tiny_gaps(rep):
 def reseat_near_beat_gaps(rep):
     rng = rep.rng
     N = rep.n(1500, 15000)
-    rep.bound = f"all 2-change lists [b0@0, b1@(k + 1/1000) beats], k = 1..16, b0 in {{60, 120, 1000}} + {N} seeded lists of 2..5 changes on the 1/1000 beat grid with one forced gap of k + 1/1000 beats (k = 1..16), bpm from the pool, initial offsets; list form and from_bpm_changes_snap(reseat=True)"
+    rep.bound = f"all 2-change lists [b0@0, b1@(k + 1/1000) beats], k = 1..16, b0 in {{60, 120, 1000}} + {N} seeded lists of 2..5 changes on the 1/1000 beat grid with one forced gap of k + 1/1000 beats (k = 1..16), bpm from the pool, initial offsets; list form and from_bpm_changes_snap(reseat=True); the 12 two-change lists with k = 4, 8, 12, 16 (whole measures + 1/1000 beat: the documented extend case) carry plain clause ids, all others near_beat_gap_*"
     rep.rule = "a case is one tempo list; every case is non-trivial (a gap is a whole number of beats + 0.001 beat)"
 
     def gen():
@@ -467,11 +597,190 @@ def reseat_near_beat_gaps(rep):
     _drive(rep, gen(), 30, 200)
 
 
+# ----------------------------------------------------------------------------- dimensions added after the seeded rounds
+
+INITS_WIDE = [0.0, 0, 250, -1234.5, 0.30000000000000004, 1e7, -1e7, 86399999.875, 5000.0]
+HAIRS_P = [Fraction(1, 1000), Fraction(1, 2000), Fraction(1, 4000), Fraction(3, 4000), Fraction(1, 10000)]  # <= 0.001 beat
+HAIRS_M = [Fraction(1, 500), Fraction(1, 250), Fraction(1, 200)]  # up to / at / just over 0.001 measure (metronome 4)
+VIAS = ["class", "instance", "defaults"]
+
+
+def _shuffled(rng, n):
+    order = list(range(n))
+    rng.shuffle(order)
+    return order
+
+
+@bounded("C11", note="lists whose off-measure changes all sit a hair (<= 0.001 beat; some up to 0.005 beat) after a measure line - the documented 'extend' case - as fractions and as floats, shuffled, through every way of calling")
+def reseat_hair_after_measure_line(rep):
+    rng = rep.rng
+    N = rep.n(3000, 30000)
+    rep.bound = (
+        f"all 2-change lists [b0@0, 90@(k measures + h)], k = 1..3, b0 in {{60, 120, 1000}}, h in {[str(h) for h in HAIRS_P + HAIRS_M]} beats + {N} seeded lists of 2..5 changes "
+        f"in strictly increasing measures (1..3 apart), each later change on its measure line or a hair after it: 60 % of the lists use only hairs <= 1/1000 beat (nothing else is off a measure line), "
+        f"the rest also 1/500, 1/250 (= 0.001 measure) and 1/200 beat; beats handed over as Fraction or as float (a third), list order shuffled (half), bpm from the pool, "
+        f"initial offset from {INITS_WIDE}, called through the class / an instance / with defaulted and keyword arguments; list form and from_bpm_changes_snap(reseat=True)"
+    )
+    rep.rule = "a case is one tempo list + initial offset + calling convention; non-trivial when some change is off a measure line (always, but for the few lists that drew no hair)"
+
+    def gen():
+        for k in (1, 2, 3):
+            for b0 in (60, 120, 1000):
+                for h in HAIRS_P + HAIRS_M:
+                    yield [(Fraction(0), Fraction(b0)), (Fraction(METRO * k) + h, Fraction(90))], 0.0, ["list", "from_snap"], None
+        for _ in range(N):
+            n = rng.randrange(2, 6)
+            hairs = HAIRS_P if rng.random() < 0.6 else HAIRS_P + HAIRS_M
+            m, pos = 0, [Fraction(0)]
+            for _ in range(n - 1):
+                m += rng.randrange(1, 4)
+                pos.append(Fraction(METRO * m) + (rng.choice(hairs) if rng.random() < 0.7 else 0))
+            ch = list(zip(pos, [Fraction(rng.choice(POOL)) for _ in range(n)]))
+            more = dict(num="float" if rng.random() < 1 / 3 else None, via=rng.choice(VIAS))
+            if more["via"] == "class":
+                more["via"] = None
+            yield ch, rng.choice(INITS_WIDE), ["list", "from_snap"], (_shuffled(rng, n) if rng.random() < 0.5 else None), more
+
+    _drive(rep, gen(), 25, 200)
+
+
+@bounded("C11", note="one-element lists, and lists in which two or three changes (with different bpms) sit on exactly the same position - on a measure line, off it, and on position 0")
+def reseat_single_and_coincident(rep):
+    rng = rep.rng
+    N = rep.n(1500, 15000)
+    rep.bound = (
+        f"all one-change lists [b@0], b from the pool, initial offsets {INITS_WIDE[:6]}, all entry points (also a map made from ms offsets) + "
+        f"{N} seeded lists of 2..4 changes on the half-beat and 1/48 grids (a quarter of the gaps whole measures) in which one position - position 0 in a fifth of the lists - "
+        f"carries 2 (or, in a fifth, 3) changes with different bpms, listed in the order in which they are meant to follow each other; list form, from_bpm_changes_snap(reseat=True), TimingMap.reseat()"
+    )
+    rep.rule = "a case is one tempo list + initial offset; non-trivial when some change is off a measure line (one-change lists are trivial)"
+
+    def gen():
+        for b in POOL:
+            for init in INITS_WIDE[:6]:
+                yield [(Fraction(0), Fraction(b))], init, ["list", "from_snap", "tm_reseat", "tm_reseat_offsets"], None
+        k = 0
+        while k < N:
+            ch = _random_list(rng, rng.choice([2, 48]))
+            ch = ch[: rng.randrange(2, 5)]
+            i = 0 if rng.random() < 0.2 else rng.randrange(1, len(ch))
+            reps = 2 if rng.random() < 0.2 else 1
+            extra = []
+            for _ in range(reps):
+                b = Fraction(rng.choice(POOL))
+                while b == ch[i][1] or (extra and b == extra[-1][1]):
+                    b = Fraction(rng.choice(POOL))
+                extra.append((ch[i][0], b))
+            ch = ch[: i + 1] + extra + ch[i + 1 :]
+            if _family(ch) != "coincident_":
+                continue
+            k += 1
+            yield ch, rng.choice(INITS_WIDE[:6]), None, None
+
+    _drive(rep, gen(), 25, 200)
+
+
+METROS_POW2 = [1, 2, 8, 16]
+METROS_ODD = [3, 5, 6, 7, 9, 12]
+
+
+def _metro_list(rng, mixed):
+    """2..4 changes; gaps on the half-beat / 1/48 grids; the metronome changes only at a change that sits on a measure line."""
+    n = rng.randrange(2, 5)
+    den = rng.choice([2, 48])
+    pool = METROS_POW2 + [4] if rng.random() < 0.5 else METROS_ODD + [4]
+    metros = [rng.choice(pool)]
+    pos, beat = [Fraction(0)], Fraction(0)
+    for _ in range(n - 1):
+        me = metros[-1]
+        if rng.random() < 0.3:
+            g = Fraction(rng.randrange(1, 4) * me) - beat if rng.random() < 0.5 else Fraction(rng.randrange(1, 4) * me)
+        else:
+            g = Fraction(rng.randrange(1, 8 * den + 1), den)
+        if g <= 0:
+            g = Fraction(me)
+        pos.append(pos[-1] + g)
+        beat = (beat + g) % me
+        metros.append(rng.choice(pool) if (mixed and beat == 0) else me)
+    return list(zip(pos, [Fraction(rng.choice(POOL)) for _ in range(n)])), metros
+
+
+@bounded("C11", note="metronomes other than 4 (1, 2, 8, 16 and 3, 5, 6, 7, 9, 12 beats per measure), one per list or changing on a measure line")
+def reseat_other_metronomes(rep):
+    rng = rep.rng
+    N = rep.n(2500, 25000)
+    rep.bound = (
+        f"all two-change lists [b0@0, 120@k half-beats], k = 1..24, b0 in {{60, 90, 130}}, metronome in {METROS_POW2 + METROS_ODD} + {N} seeded lists of 2..4 changes, gaps up to 8 beats on the half-beat and 1/48 grids "
+        f"(3 in 10 gaps chosen to end on a measure line / to be whole measures), bpm from the pool; half the lists use power-of-two metronomes {METROS_POW2 + [4]}, half {METROS_ODD + [4]}; "
+        f"in half of each the metronome may change at a change that sits on a measure line; initial offsets, shuffled order (half); all three entry points"
+    )
+    rep.rule = "a case is one tempo list with its metronome(s); non-trivial when some change is off a measure line"
+
+    def gen():
+        for me in METROS_POW2 + METROS_ODD:
+            for b0 in (60, 90, 130):
+                for k in range(1, 25):
+                    yield [(Fraction(0), Fraction(b0)), (Fraction(k, 2), Fraction(120))], 0.0, None, None, dict(metro=me)
+        for j in range(N):
+            ch, metros = _metro_list(rng, mixed=j % 2 == 1)
+            more = dict(metro=metros[0]) if len(set(metros)) == 1 else dict(metros=metros)
+            yield ch, rng.choice(INITS), None, (_shuffled(rng, len(ch)) if rng.random() < 0.5 else None), more
+
+    _drive(rep, gen(), 30, 300)
+
+
+NUMS = ["fraction", "float", "int", "numpy", "unnormalised"]
+LONG_MEASURES = [100, 257, 1000, 4096, 9999]
+
+
+@bounded("C11", note="the same lists handed over as Fraction / float / int / numpy numbers and with beats exceeding the measure, through the class / an instance / defaulted and keyword arguments, TimingMap.reseat() also on maps made from ms offsets")
+def reseat_number_types_and_entry_points(rep):
+    rng = rep.rng
+    N = rep.n(2000, 20000)
+    rep.bound = (
+        f"{N} seeded lists of 2..5 changes, gaps up to 8 beats on the half-beat, 1/64 (exact in floats) and 1/48 grids, bpm from the pool, metronome 4; numbers handed over as {NUMS} "
+        f"(float / numpy only on the half-beat and 1/64 grids, where they denote the same positions), calling convention from {VIAS}, initial offset from {INITS_WIDE} (python int / float, numpy float64 in a fifth), "
+        f"shuffled order (half), in 15 % of the lists one gap longer by {LONG_MEASURES} measures; list form, from_bpm_changes_snap(reseat=True), TimingMap.reseat() of a map made from snaps and of a map made from the ms offsets of the changes"
+    )
+    rep.rule = "a case is one tempo list + initial offset + number type + calling convention; non-trivial when some change is off a measure line"
+
+    def gen():
+        k = 0
+        while k < N:
+            num = rng.choice(NUMS)
+            den = rng.choice([2, 64] if num in ("float", "numpy") else [2, 64, 48])
+            ch = _random_list(rng, den)
+            if rng.random() < 0.15:
+                # one very long stretch: a later change thousands of measures on
+                i = rng.randrange(0, len(ch) - 1)
+                add = Fraction(METRO * rng.choice(LONG_MEASURES))
+                ch = ch[: i + 1] + [(q + add, b) for q, b in ch[i + 1 :]]
+            if _family(ch):
+                continue
+            k += 1
+            more = dict(num=None if num == "fraction" else num, via=rng.choice(VIAS), init_np=True if rng.random() < 0.2 else None)
+            if more["via"] == "class":
+                more["via"] = None
+            yield ch, rng.choice(INITS_WIDE), ["list", "from_snap", "tm_reseat", "tm_reseat_offsets"], (_shuffled(rng, len(ch)) if rng.random() < 0.5 else None), more
+
+    _drive(rep, gen(), 30, 300)
+
+
 def _replay(case, what):
     failed = _run_case(case)
     hit = [d for w, d in failed if w == what]
     return (bool(hit), hit[0] if hit else "passes")
 
 
-for _n in ("reseat_half_beat_grid_2_3", "reseat_half_beat_grid_4", "reseat_random_fine_grids", "reseat_tiny_gaps", "reseat_near_beat_gaps"):
+for _n in (
+    "reseat_half_beat_grid_2_3",
+    "reseat_half_beat_grid_4",
+    "reseat_random_fine_grids",
+    "reseat_tiny_gaps",
+    "reseat_near_beat_gaps",
+    "reseat_hair_after_measure_line",
+    "reseat_single_and_coincident",
+    "reseat_other_metronomes",
+    "reseat_number_types_and_entry_points",
+):
     replayer(_n)(_replay)
